@@ -310,12 +310,16 @@ class Importance(CellModifierInput):
                         f"{particle}, though it is in the problem"
                     )
                 new_vals[particle].append(tree["data"][0])
+                # work on copies: the classifier sets belong to the cells' trees
                 if len(particle_pairings[particle]) == 0:
-                    particle_pairings[particle] = tree["classifier"].particles.particles
+                    particle_pairings[particle] = set(
+                        tree["classifier"].particles.particles
+                    )
                 else:
-                    particle_pairings[particle] &= tree[
-                        "classifier"
-                    ].particles.particles
+                    particle_pairings[particle] = (
+                        particle_pairings[particle]
+                        & tree["classifier"].particles.particles
+                    )
         return self._try_combine_values(new_vals, particle_pairings)
 
     def _update_values(self, in_middle=False):
